@@ -1,7 +1,7 @@
 #!/bin/bash
 cd /verif
 ./check all 2>&1 | grep "^\[C\|VIOLATION" > /tmp/reg_all.log
-for d in benign_agents benign_agents2 benign_agents3 benign_agents4 benign_agents5 benign_agents6 benign_agents7 benign_agents8 benign_agents9 benign_agents10; do ALL_BENIGN=1 VARIANT_DIR=/verif/selftest/$d python3 tools/variant_eval.py 6 2>&1 | grep -v "ok-silent" > /tmp/reg_$d.log; done
+for d in benign_agents benign_agents2 benign_agents3 benign_agents4 benign_agents5 benign_agents6 benign_agents7 benign_agents8 benign_agents9 benign_agents10 benign_agents11; do ALL_BENIGN=1 VARIANT_DIR=/verif/selftest/$d python3 tools/variant_eval.py 6 2>&1 | grep -v "ok-silent" > /tmp/reg_$d.log; done
 python3 tools/variant_eval.py 6 2>&1 | grep -v "ok-silent\|ok-fired" > /tmp/reg_variants.log
 python3 tools/seed_eval.py /verif/seeded 6 2>&1 | grep -v " own " > /tmp/reg_seeds.log
 python3 tools/repaired_eval.py > /tmp/reg_repaired.log 2>&1
